@@ -106,7 +106,7 @@ theorem inUni_lt (uni : Option VId) {y : Nat} (hy : y < w.nV) :
   | some u => simp [inUni, InMem, h1, hy]
 
 theorem attrMatch_lt (attr val : Nat) {x : Nat} (hx : x < w.nV) :
-    attrMatch w attr val x = (w.attrs x).contains (attr, val) := by
+    attrMatch w attr val x = hasAttrVal w attr val x := by
   have h1 : ¬ x > w.nV := by omega
   have h2 : ¬ x = w.nV := by omega
   simp [attrMatch, h1, h2]
@@ -234,11 +234,11 @@ theorem search_eq_find (kind : SearchKind) (uni : Option VId) (start : VId) (att
     (ht : TotalNb w F 0 2 none) (hs : start < w.nV) (hu : InMem w uni start) :
     search w F kind uni start attr val =
       .inr ((pureOut w F (fun _ => true) (travOf kind) uni start 0 2 none).find?
-        (fun x => (w.attrs x).contains (attr, val))) := by
+        (hasAttrVal w attr val)) := by
   have hb := resolvedNb_bounded w F ht
   have hlt := pureOut_lt w F (travOf kind) uni start 0 2 none ht hs hu
   have hcongr : (pureOut w F (fun _ => true) (travOf kind) uni start 0 2 none).find?
-        (fun x => (w.attrs x).contains (attr, val)) =
+        (hasAttrVal w attr val) =
       (pureOut w F (fun _ => true) (travOf kind) uni start 0 2 none).find? (attrMatch w attr val) :=
     find?_congr_mem _ _ _ (fun x hx => (attrMatch_lt w attr val (hlt x hx)).symm)
   rw [hcongr]
